@@ -1401,7 +1401,18 @@ func (fr *Frame) frameCall(st *State, c ssa.CallInstruction, name string, objs [
 	if objs != nil {
 		var cs []string
 		for _, o := range objs {
-			cs = append(cs, fe.freshCond(o))
+			alts := []string{fe.freshCond(o)}
+			// the function's own frame may name parameters: "modifies header.hdr"
+			for _, m := range fe.fc.Modifies {
+				if i := strings.Index(m, "."); i > 0 {
+					for pi, p := range fe.fn.Params {
+						if p.Name() == m[:i] && pi < len(fr.params) {
+							alts = append(alts, fmt.Sprintf("(= %s %s)", o, fr.params[pi].S))
+						}
+					}
+				}
+			}
+			cs = append(cs, sOr(alts...))
 		}
 		f = sAnd(cs...)
 	}
